@@ -1323,7 +1323,8 @@ func (r *replicateChannelHandler) startReadChannel() {
 				return
 			case replicateMsg := <-r.forwardPackChan:
 				r.innerHandleReplicateMsg(true, replicateMsg)
-				GreedyConsumeChan(r.generatePackChan, true, r.innerHandleReplicateMsg)
+				// a generated pack is a pack of this handler's own streams, not a forwarded one
+				GreedyConsumeChan(r.generatePackChan, false, r.innerHandleReplicateMsg)
 			case replicateMsg := <-r.generatePackChan:
 				r.innerHandleReplicateMsg(false, replicateMsg)
 				GreedyConsumeChan(r.generatePackChan, false, r.innerHandleReplicateMsg)
